@@ -1,6 +1,7 @@
 import NunVerif.Model.Session
 import NunVerif.Model.Oplog
 import NunVerif.Model.Repl
+import NunVerif.Model.Cluster
 /-
   Line-protocol driver: one operation per input line, canonical output lines per operation.
   The Rust harness (`nvh`) produces the same lines from the real implementation.
@@ -159,6 +160,11 @@ structure World where
   pump : Bool := false
   mstate : Meta := {}
   replQueue : List Bytes := []
+  /-- cluster mode: the supervisor is pumped too; what the node queued for it and for its peer connections -/
+  sup : Bool := false
+  supQueue : List Bytes := []
+  links : List (Bytes × Bool) := []          -- connections opened by this node, in creation order (peer, as primary)
+  linkOut : List (Bytes × Bytes) := []       -- lines queued on them (peer, line), oldest first
   /-- crash window (C16): between `MARK begin` and `MARK end` every write to the metadata files is listed -/
   xtrace : Bool := false
   xbase : Option (Meta × Node) := none
@@ -184,6 +190,58 @@ def recordNotices (w : World) (evs : List Ev) : World :=
       else w
     | _ => w) w
 
+/-- events that stay inside the node (queued for its own loop / supervisor / peer connections) -/
+def absorb (w : World) (evs : List Ev) : World × List Ev :=
+  let w := if w.pump then { w with replQueue := w.replQueue ++ evs.filterMap fun e => match e with | .repl l => some l | _ => none } else w
+  let w := if w.sup then
+      { w with supQueue := w.supQueue ++ (evs.filterMap fun e => match e with | .sup l => some l | _ => none),
+               linkOut := w.linkOut ++ (evs.filterMap fun e => match e with | .toMember m l => some (m, l) | _ => none) }
+    else w
+  (w, evs.filter fun e => match e with
+    | .repl _ => !w.pump
+    | .sup _ => !w.sup
+    | .toMember _ _ => !w.sup
+    | _ => true)
+
+def optOf (opts : Bytes) (key : Bytes) : Option Bytes :=
+  (Bytes.splitAll 44 opts).findSome? fun o => if Bytes.startsWith o (key ++ [61]) then some (o.drop (key.length + 1)) else none
+
+/-- the replication loop over everything queued (one `pump()` of the harness) -/
+def pumpLoop (w : World) : World × List String × List (XOp × Node) :=
+  let (n, m, outs, dead, xs, tos) := w.replQueue.foldl (fun (acc : Node × Meta × List String × Bool × List (XOp × Node) × List (Bytes × Bytes)) line =>
+    let (n, m, outs, dead, xs, tos) := acc
+    if dead then (n, m, outs ++ [s!"P {esc line}"], dead, xs, tos) else
+    let xs := xs ++ (tracesOf m (n.replMOps line)).map (·, n)
+    match n.replStep m line with
+    | (n', m', .ok evs) =>
+      let mine := evs.filterMap fun e => match e with | .toMember mm l => some (mm, l) | _ => none
+      let shown := if w.sup then evs.filter (fun e => match e with | .toMember _ _ => false | _ => true) else evs
+      (n', m', outs ++ [s!"P {esc line}"] ++ evLines shown, false, xs, tos ++ mine)
+    | (n', m', .panic _) => (n', m', outs ++ [s!"P {esc line}"], true, xs, tos)) (w.node, w.mstate, [], false, [], [])
+  let ps := outs.filter (·.startsWith "P ")
+  let rest := outs.filter (fun o => !o.startsWith "P ")
+  ({ w with node := n, mstate := m, replQueue := [], linkOut := if w.sup then w.linkOut ++ tos else w.linkOut },
+   ps ++ (if dead then ["K PANIC"] else []) ++ rest, xs)
+
+/-- the supervisor over everything queued (one `pump_sup()` of the harness) -/
+def pumpSup (w : World) : World × List String :=
+  let (w, vs, ks, dead) := w.supQueue.foldl (fun (acc : World × List String × List String × Bool) msg =>
+    let (w, vs, ks, dead) := acc
+    if dead then (w, vs ++ [s!"V {esc msg}"], ks, dead) else
+    match w.node.supStep w.mstate msg with
+    | (n', .ok effs) =>
+      let w := { w with node := n' }
+      let w := effs.foldl (fun (w : World) e => match e with
+        | .link to isP => { w with links := w.links ++ [(to, isP)] }
+        | .send to line => { w with linkOut := w.linkOut ++ [(to, line)] }
+        | .repl line => { w with replQueue := w.replQueue ++ [line] }) w
+      let newK := effs.filterMap fun e => match e with
+        | .link to isP => some s!"K link {escw to} primary={if isP then 1 else 0} lastop={if isP then 0 else lastOpTime w.mstate.oplog.cur w.mstate.oplog.rot}"
+        | _ => none
+      (w, vs ++ [s!"V {esc msg}"], ks ++ newK, false)
+    | (n', .panic _) => ({ w with node := n' }, vs ++ [s!"V {esc msg}"], ks, true)) ({ w with supQueue := [] }, [], [], false)
+  (w, vs ++ (if dead then ["K PANIC supervisor"] else []) ++ ks)
+
 def step (w : World) (line : String) : World × List String :=
   let bs := toBytes line
   let parts := Bytes.splitn 32 3 bs
@@ -192,10 +250,15 @@ def step (w : World) (line : String) : World × List String :=
   let a2 := parts[2]?.getD []
   match cmd with
   | "RESET" =>
-    let role := if a1 = b!"startingup" then Role.startingUp else if a1 = b!"secoundary" then Role.secoundary else Role.primary
-    let n := freshNode role
-    let pump := Bytes.contains a1 b!"pump"
-    ({ node := n, oplog := {}, pump := pump }, ["# reset"] ++ dumpNode n)
+    let r0 := (Bytes.splitAll 44 a1).head?.getD []
+    let role := if r0 = b!"startingup" then Role.startingUp else if r0 = b!"secoundary" then Role.secoundary else Role.primary
+    let opts := Bytes.splitAll 44 a1
+    let name := (optOf a1 b!"name").getD b!"n1"
+    let pid := ((optOf a1 b!"pid").bind Bytes.parseNat).getD 1
+    -- every node has its own range of operation ids
+    let n0 := freshNodeAt role (clockStart + (((optOf a1 b!"pid").bind Bytes.parseNat).getD 0) * 1000000000000)
+    let n := { n0 with addr := name, pid := pid }
+    ({ node := n, oplog := {}, pump := opts.contains b!"pump", sup := opts.contains b!"sup" }, ["# reset"] ++ dumpNode n)
   | "SESS" =>
     match Bytes.parseNat a1 with
     | some sid =>
@@ -209,11 +272,8 @@ def step (w : World) (line : String) : World × List String :=
       let n0 := if (AL.get? w.node.sessions sid).isNone then w.node.setSession sid {} else w.node
       let (n, r, evs) := n0.exec sid (unesc a2)
       let w := recordNotices { w with node := n } evs
-      if w.pump then
-        let queued := evs.filterMap fun e => match e with | .repl l => some l | _ => none
-        let shown := evs.filter fun e => match e with | .repl _ => false | _ => true
-        ({ w with replQueue := w.replQueue ++ queued }, respStr r :: evLines shown ++ dumpNode n)
-      else (w, respStr r :: evLines evs ++ dumpNode n)
+      let (w, shown) := absorb w evs
+      (w, respStr r :: evLines shown ++ dumpNode n)
     | none => (w, ["E bad-op"])
   | "RESOLVE" =>
     -- RESOLVE <sid> <i> <value>: answer the i-th notice this session received
@@ -238,8 +298,9 @@ def step (w : World) (line : String) : World × List String :=
     match Bytes.parseNat a1 with
     | some sid =>
       if (AL.get? w.node.sessions sid).isNone then (w, ["E bad-op"]) else
-      let (n, evs) := w.node.close sid
-      ({ w with node := n }, evLines (evs.filter (evNotForSid sid)) ++ dumpNode n)
+      let (n, evs) := w.node.tcpClose sid
+      let (w, shown) := absorb { w with node := n } evs
+      (w, evLines (shown.filter (evNotForSid sid)) ++ dumpNode n)
     | none => (w, ["E bad-op"])
   | "HTTP" =>
     match Bytes.parseNat a1 with
@@ -279,19 +340,40 @@ def step (w : World) (line : String) : World × List String :=
       ({ w with node := n, notices := [], mstate := m, replQueue := [] }, "# restarted" :: rxl ++ (if w.pump then dumpMeta n m else []) ++ dumpFs n.fs ++ dumpNode n)
     | none => ({ w with node := { freshNodeAt w.node.role w.node.clock with fs := w.node.fs }, notices := [] }, ["R PANIC restart"])
   | "PUMP" =>
-    -- run the replication loop over everything queued
-    let (n, m, outs, dead, xs) := w.replQueue.foldl (fun (acc : Node × Meta × List String × Bool × List (XOp × Node)) line =>
-      let (n, m, outs, dead, xs) := acc
-      if dead then (n, m, outs ++ [s!"P {esc line}"], dead, xs) else
-      let xs := xs ++ (tracesOf m (n.replMOps line)).map (·, n)
-      match n.replStep m line with
-      | (n', m', .ok evs) => (n', m', outs ++ [s!"P {esc line}"] ++ evLines evs, false, xs)
-      | (n', m', .panic _) => (n', m', outs ++ [s!"P {esc line}"], true, xs)) (w.node, w.mstate, [], false, [])
-    let ps := outs.filter (·.startsWith "P ")
-    let rest := outs.filter (fun o => !o.startsWith "P ")
-    let xl := if w.xtrace then xs.map (xopStr ·.1) else []
-    ({ w with node := n, mstate := m, replQueue := [], xlog := if w.xtrace then w.xlog ++ xs else w.xlog },
-     ps ++ (if dead then ["K PANIC"] else []) ++ rest ++ xl ++ dumpMeta n m ++ dumpNode n)
+    let (w, out0, xs0) := pumpLoop w
+    if w.sup then
+      -- loop and supervisor feed each other: both until nothing moves (as the harness does)
+      let rec rounds (k : Nat) (w : World) (acc : List String) : World × List String :=
+        match k with
+        | 0 => (w, acc)
+        | k + 1 =>
+          let (w, a) := pumpSup w
+          let (w, b, _) := pumpLoop w
+          if a.isEmpty && b.isEmpty then (w, acc) else rounds k w (acc ++ a ++ b)
+      let (w, out) := rounds 8 w out0
+      -- what is queued on the peer connections, connection by connection
+      let ls := w.links.flatMap fun (to, _) => (w.linkOut.filter (·.1 = to)).map fun (_, l) => s!"L {escw to} {esc l}"
+      ({ w with linkOut := [] }, out ++ ls ++ dumpNode w.node)
+    else
+      let xl := if w.xtrace then xs0.map (xopStr ·.1) else []
+      ({ w with xlog := if w.xtrace then w.xlog ++ xs0 else w.xlog }, out0 ++ xl ++ dumpMeta w.node w.mstate ++ dumpNode w.node)
+  | "DUMP" => ({ w with lastDump := [] }, dumpNode w.node)
+  | "LINKSESS" =>
+    match Bytes.parseNat a1 with
+    | some sid =>
+      let n := w.node.setSession sid { auth := true, member := some (a2, .secoundary) }
+      ({ w with node := n }, dumpNode n)
+    | none => (w, ["E bad-op"])
+  | "ELECT" =>
+    let (n, evs) := if w.node.isEligible then w.node.startElection else (w.node, [])
+    let (w, shown) := absorb { w with node := n } evs
+    (w, "R ok" :: evLines shown ++ dumpNode n)
+  | "UNLINK" =>
+    match w.links.find? (·.1 = a1) with
+    | some (_, isP) =>
+      let n := if isP then w.node.removeMember a1 else w.node
+      ({ w with node := n, links := w.links.filter (·.1 != a1), linkOut := w.linkOut.filter (·.1 != a1) }, "# unlinked true" :: dumpNode n)
+    | none => (w, "# unlinked false" :: dumpNode w.node)
   | "MARK" =>
     if a1 == b!"begin" then ({ w with xtrace := true, xbase := some (w.mstate, w.node), xlog := [] }, [])
     else ({ w with xtrace := false }, [])
@@ -377,30 +459,43 @@ def step (w : World) (line : String) : World × List String :=
   | "" => (w, [])
   | _ => (w, ["E bad-op"])
 
-partial def loop (h : IO.FS.Stream) (out : IO.FS.Stream) (w : World) : IO Unit := do
+partial def loop (serve : Bool) (h : IO.FS.Stream) (out : IO.FS.Stream) (ws : List (Nat × World)) : IO Unit := do
   let line ← h.getLine
   if line.isEmpty then return ()
   let l := String.ofList (line.toList.filter (· != '\n'))
   if l.startsWith "#" then
     out.putStrLn l
-    loop h out w
+    if serve then out.putStrLn "."; out.flush
+    loop serve h out ws
   else
-    let (w', outs) := step w l
+    -- `@<i> <op>` addresses node i of a cluster; everything else goes to node 1
+    let (ix, op) : Nat × String :=
+      if l.startsWith "@" then
+        let body : String := String.ofList (l.toList.drop 1)
+        match body.splitOn " " with
+        | i :: rest => ((i.toNat?).getD 1, " ".intercalate rest)
+        | [] => (1, l)
+      else (1, l)
+    let w := (AL.get? ws ix).getD { node := freshNode .primary }
+    let (w', outs) := step w op
     out.putStrLn s!"> {l}"
     -- dump lines (prefix "D ") are replaced by "D =" when identical to the previous dump
     let dump := outs.filter (·.startsWith "D ")
     let rest := outs.filter (fun o => !o.startsWith "D ")
     for o in rest do out.putStrLn o
     if dump.isEmpty then
-      loop h out w'
-    else if dump == w'.lastDump && !l.startsWith "RESET" then
+      if serve then out.putStrLn "."; out.flush
+      loop serve h out (AL.put ws ix w')
+    else if dump == w'.lastDump && !op.startsWith "RESET" then
       out.putStrLn "D ="
-      loop h out w'
+      if serve then out.putStrLn "."; out.flush
+      loop serve h out (AL.put ws ix w')
     else
       for o in dump do out.putStrLn o
-      loop h out { w' with lastDump := dump }
+      if serve then out.putStrLn "."; out.flush
+      loop serve h out (AL.put ws ix { w' with lastDump := dump })
 
-def main : IO Unit := do
+def main (args : List String) : IO Unit := do
   let stdin ← IO.getStdin
   let stdout ← IO.getStdout
-  loop stdin stdout { node := freshNode .primary }
+  loop (args.contains "--serve") stdin stdout []
